@@ -45,6 +45,7 @@ Check(v) ==
   ELSE IF \E i, j \in 1 .. Len(r) : i # j /\ r[i][1] = r[j][1] THEN "WholeFrames"            \* interleaved / repeated
   ELSE IF \E i \in 1 .. Len(r) : r[i][2] > FrameLenOf(v, r[i][1]) THEN "WholeFrames"
   ELSE IF \E i \in 1 .. Len(r) - 1 : r[i][2] < FrameLenOf(v, r[i][1]) THEN "NothingAfterPartial"  \* bytes follow a torn frame
+  ELSE IF \E w \in 1 .. nW : v.res[w].err = "ctx" /\ v.res[w].n = 0 /\ Count(v.wire, w) > 0 THEN "NotStartedNoBytes"
   ELSE IF \E w \in 1 .. nW : v.res[w].n # Count(v.wire, w) THEN "CountExact"
   ELSE IF \E w \in 1 .. nW : v.res[w].err = "none" /\ v.res[w].n # v.lens[w] THEN "OkImpliesWhole"
   ELSE IF \E w \in 1 .. nW : v.res[w].n < v.lens[w] /\ v.res[w].err = "none" THEN "OkImpliesWhole"
